@@ -368,6 +368,14 @@ func (vc *VC) run() {
 	fd, pi, c := vc.fd, vc.pkg, vc.contract
 	info := pi.P.TypesInfo
 	vc.scanBoxed(fd.Body, info)
+	vc.loopIndex = map[ast.Node]int{}
+	ast.Inspect(fd.Body, func(n ast.Node) bool {
+		switch n.(type) {
+		case *ast.ForStmt, *ast.RangeStmt:
+			vc.loopIndex[n] = len(vc.loopIndex) + 1
+		}
+		return true
+	})
 	st := &State{env: map[types.Object]*Value{}, heap: map[string]string{}, alloc: "Alloc0", ghost: map[string]string{}}
 	names := map[string]*Value{}
 	bind := func(id *ast.Ident) {
